@@ -248,3 +248,11 @@ prop('C16',
      diverge={'A': None, 'U': {'accept', 'post'}},
      nontrivial_line=lambda k, line: k == 'A',
      rule='histories of accepted and refused updates over 1..4 logs (IDs from log.ID) on in-memory, SQLite :memory: and SQLite file stores; after steps, GET checkpoint through the registered gorilla/mux handlers (httptest server) and through the bundled client for every known ID and for unknown / odd IDs (upper case, truncated, extended, -, _, ., %2F, empty, .., 200 characters, %00, non-ASCII, spaces), GET logs decoded and sorted; compared with the model and the monitors 200 => that log holds exactly these bytes, else 404, client maps 404 to ErrNotExist')
+
+prop('C18',
+     modules=['WitnessVerif.Props.C18'],
+     scenarios=lambda tier: [sc('tiles'), sc('lib')],
+     diverge={'TP': None, 'TF': None, 'U': {'accept'}},
+     nontrivial_line=lambda k, line: k in ('TP', 'TF'),
+     rule='(a) SumDBClient.tilePath for tile indices at every carry boundary of the x%03d encoding (999/1000/1001, 10^6 +-1, 10^9 +-1, multiples) and random indices to 1.1*10^9, compared with tlog.Tile.Path and the Lean model; (b) sumdb.FeedLog (one cycle) against an in-memory stub SumDB (http.RoundTripper serving /latest and tiles built with the reference tlog functions) and a recording stub witness for sampled size pairs from < to (quick: 250 pairs to 160; thorough: ~1/40 of all pairs to 1200, every boundary 255/256/257/511/512/513): requested tile paths vs the tiles tlog.ProveTree reads through a reference TileReader, submitted proof vs the harness RFC 6962 proof, tlog.ProveTree, tlog.CheckTree, the Lean rfcProof over SHA-256, the recursive verifier and the witness verifier; every tenth pair also through the real witness',
+     assumptions=['tile-to-hash reconstruction (tlog.TileHashReader) is dependency code: compared, not modelled'])
